@@ -62,6 +62,8 @@ func (c *c18Case) fs() []FSEntry {
 	} else {
 		fs = append(c.lay.fs("a", c.docs), c.lay2.fs("b", c.docs2)...)
 	}
+	// the same two directories reached through links of their own (a directory argument may be spelled through one)
+	fs = append(fs, FSEntry{Path: "la", Link: "a"}, FSEntry{Path: "lb", Link: "b"})
 	if c.stale && c.outf == "out/res.txt" {
 		fs = append(fs, FSEntry{Path: "out/res.txt", Text: strings.Repeat("stale report line from an earlier run => must not survive\n", 400)})
 	}
@@ -383,6 +385,8 @@ func c18Build(seed uint64, i int, corpus []CorpusDir, faulty bool) *c18Case {
 		if r.chance(1, 4) {
 			// a directory compared with itself, under several spellings of its path
 			c.dir2 = pick(r, []string{"a", "a/", "./a", "a/../a"})
+		} else if r.chance(1, 5) {
+			c.dir2 = pick(r, []string{"lb/", "lb/.", "b/", "lb", "la/"})
 		}
 	}
 	c.fmt = pick(r, []string{"", "txt", "json", "csv", "md", "dot"})
@@ -395,7 +399,7 @@ func c18Build(seed uint64, i int, corpus []CorpusDir, faulty bool) *c18Case {
 	c.fail = r.chance(1, 8)
 	c.flagsFirst = r.chance(1, 5)
 	if r.chance(1, 6) {
-		c.dirSpell = pick(r, []string{"./a", "a/", "a/.", "b/../a"})
+		c.dirSpell = pick(r, []string{"./a", "a/", "a/.", "b/../a", "la/", "la/.", "la", "./la/"})
 	}
 	c.verb = pick(r, []string{"", "", "-q", "-v"})
 	if c.cmd == "list" {
